@@ -164,17 +164,33 @@ def opsOf (ps : List Piece) : Out :=
 
 /-- A pattern tree as far as the width law is concerned: a leaf is any formatter (or literal text)
 with the pieces it writes; `fmt` is `Chunk::Formatted` whose inner chunk runs its children in
-order (`{(..)}`; `{m}` = one leaf child; `{h(..)}` = style leaf, children, reset leaf). -/
+order (`{(..)}`; `{m}` = one leaf child; `{h(..)}` = style leaf, children, reset leaf).
+`gated` is a profile-dependent group — `FormattedChunk::Debug` (`{D(..)}`, `{debug(..)}`) and
+`FormattedChunk::Release` (`{R(..)}`, `{release(..)}`): `Chunk::Formatted` whose inner chunk runs
+its children only `if cfg!(debug_assertions)` resp. `if !cfg!(debug_assertions)`; `active` is the
+value of that compile-time condition. An inactive group writes nothing, but it is still a
+`Chunk::Formatted` with its parameters: the width spec applies to the empty text. -/
 inductive Node where
   | leaf (ps : List Piece)
   | fmt (p : Params) (children : List Node)
+  | gated (active : Bool) (p : Params) (children : List Node)
   deriving Repr
+
+/-- `{D(..)}` in a build whose `cfg!(debug_assertions)` is `buildDebug` -/
+def Node.debugGroup (buildDebug : Bool) (p : Params) (children : List Node) : Node :=
+  .gated buildDebug p children
+
+/-- `{R(..)}` in a build whose `cfg!(debug_assertions)` is `buildDebug` -/
+def Node.releaseGroup (buildDebug : Bool) (p : Params) (children : List Node) : Node :=
+  .gated (!buildDebug) p children
 
 mutual
 /-- `Chunk::encode` on the byte-level stack -/
 def encodeNode : Node → W → W
   | .leaf ps, w => w.feed ps
   | .fmt p cs, w => chunkEncode p (encodeNodes cs) w
+  | .gated true p cs, w => chunkEncode p (encodeNodes cs) w
+  | .gated false p _, w => chunkEncode p (fun w' => w') w
 def encodeNodes : List Node → W → W
   | [], w => w
   | n :: ns, w => encodeNodes ns (encodeNode n w)
@@ -185,6 +201,8 @@ mutual
 def denote : Node → Out
   | .leaf ps => opsOf ps
   | .fmt p cs => codeFmtOps p (denotes cs)
+  | .gated true p cs => codeFmtOps p (denotes cs)
+  | .gated false p _ => codeFmtOps p []
 def denotes : List Node → Out
   | [] => []
   | n :: ns => denote n ++ denotes ns
@@ -195,6 +213,8 @@ mutual
 def specText : Node → List Char
   | .leaf ps => (opsOf ps).text
   | .fmt p cs => specFmt p (specTexts cs)
+  | .gated true p cs => specFmt p (specTexts cs)
+  | .gated false p _ => specFmt p []
 def specTexts : List Node → List Char
   | [] => []
   | n :: ns => specText n ++ specTexts ns
@@ -206,10 +226,13 @@ def Params.ordered (p : Params) : Bool :=
   | _, _ => true
 
 mutual
-/-- every spec in the tree has `m ≤ M` when both are given (the statement's side condition) -/
+/-- every spec in the tree has `m ≤ M` when both are given (the statement's side condition);
+the children of an inactive group never run, so their specs are not constrained -/
 def Node.ordered : Node → Bool
   | .leaf _ => true
   | .fmt p cs => p.ordered && Node.orderedAll cs
+  | .gated true p cs => p.ordered && Node.orderedAll cs
+  | .gated false p _ => p.ordered
 def Node.orderedAll : List Node → Bool
   | [] => true
   | n :: ns => n.ordered && Node.orderedAll ns
